@@ -140,7 +140,7 @@ static void case_pipeline(const Args &a, long idx, bool wantDesc, CaseResult &re
     if (anyBend) res.count("cases_with_initial_bends");
     Mon mon(0.0001, maxit); mon.nodes = &tn; mon.routes = &routes; mon.res = &res; mon.desc = &desc; mon.snapshotInitial();
     mon.check();   // iteration 0
-    if (!res.findings.empty()) { res.findings.clear(); res.inconclusive = "initial-state-already-violates (generator)"; for (auto r : rs) delete r; return; }
+    if (!res.findings.empty()) { res.findings.clear(); res.inconclusive = "initial-state-already-violates (generator)"; for (auto e : routes) delete e; for (auto nd : tn) delete nd; for (auto r : rs) delete r; return; }
     int efd = dup(2); int nul = open("/dev/null", O_WRONLY); dup2(nul, 2); close(nul);
     struct EG { int fd; ~EG() { dup2(fd, 2); close(fd); } } eg{efd};
     {
@@ -194,7 +194,7 @@ static void case_direct(const Args &a, long idx, bool wantDesc, CaseResult &res)
     if (anyBend) res.count("cases_with_initial_bends");
     Mon mon(0.0001, 100); mon.nodes = &tn; mon.routes = &routes; mon.res = &res; mon.desc = &desc; mon.keySuffix = std::string("[direct:") + (grid ? "grid" : "real") + (reuse ? ":reused-instance]" : ":one-goal]"); mon.snapshotInitial();
     mon.check();
-    if (!res.findings.empty()) { res.findings.clear(); res.inconclusive = "initial-state-already-violates (generator)"; for (auto r : rs) delete r; return; }
+    if (!res.findings.empty()) { res.findings.clear(); res.inconclusive = "initial-state-already-violates (generator)"; for (auto e : routes) delete e; for (auto nd : tn) delete nd; for (auto r : rs) delete r; return; }
     int efd = dup(2); int nul = open("/dev/null", O_WRONLY); dup2(nul, 2); close(nul);
     struct EG { int fd; ~EG() { dup2(fd, 2); close(fd); } } eg{efd};
     vpsc::Rectangle::setXBorder(0); vpsc::Rectangle::setYBorder(0);
